@@ -325,7 +325,7 @@ func TestC18(t *testing.T) {
 		days := [][2]int{{1, 1}, {2, 28}, {2, 29}, {12, 31}, {3, 8}, {11, 1}, {8, 1}}
 		clocks := [][3]int{{0, 0, 0}, {23, 59, 59}, {12, 34, 56}, {1, 30, 0}, {2, 30, 0}}
 		nanos := []int{0, 1, 500000000, 999999999, 123456789, 120000000, 1000}
-		offsets := []int{0, 19800, -43200, 50400, -1800, 60, -35100}
+		offsets := []int{0, 19800, -43200, 50400, -1800, 60, -35100, 57540, -57540}
 		zones := []string{"", "UTC", "+05:30", "America/New_York"}
 		i := 0
 		for _, k := range dtKinds {
@@ -386,7 +386,7 @@ func TestC18(t *testing.T) {
 			Kind: rapid.SampledFrom(dtKinds).Draw(rt, "kind"), Year: rapid.IntRange(1, 9999).Draw(rt, "y"), Month: rapid.IntRange(1, 12).Draw(rt, "mo"), Day: rapid.IntRange(1, 28).Draw(rt, "d"),
 			Hour: rapid.IntRange(0, 23).Draw(rt, "h"), Min: rapid.IntRange(0, 59).Draw(rt, "mi"), Sec: rapid.IntRange(0, 59).Draw(rt, "s"),
 			Nanos:  rapid.SampledFrom([]int{0, 1, 10, 999999999, 500000000, 123000000, 100}).Draw(rt, "ns") * rapid.IntRange(1, 1).Draw(rt, "one"),
-			Offset: rapid.IntRange(-14*60, 14*60).Draw(rt, "off") * 60,
+			Offset: rapid.IntRange(-15*60-59, 15*60+59).Draw(rt, "off") * 60, // the displacements a zone can have (and the parsers accept): up to 15:59 either way
 			Zone:   rapid.SampledFrom([]string{"", "UTC", "+05:30", "-12:00", "America/New_York"}).Draw(rt, "zone"),
 		}
 		if rapid.Bool().Draw(rt, "anynanos") {
